@@ -116,8 +116,10 @@ class SetTemp(SimAlgo):
         for k, v in self.spec["set"].items():
             if isinstance(v, list) and k != "selected":
                 v = v[t % len(v)]
-            if v is not None:
-                target.temp[k] = list(v) if isinstance(v, list) else v
+            if v == "__del__":
+                target.temp.pop(k, None)
+            elif v is not None:
+                target.temp[k] = list(v) if isinstance(v, list) else (dict(v) if isinstance(v, dict) else v)
         return True
 
 
